@@ -385,6 +385,10 @@ def run(ctx):
     check_prepare_error_sources(ctx, "R9")
     ctx.rule("R7", "variants a writer does not implement are rejected by its pre-flight (evaluated)", "an object the writer can only answer with 'not implemented' gets past the pre-flight: the target file is truncated before the failure")
     check_unimplemented_variants(ctx, "R7")
+    ctx.rule("R10", "a format that cannot do what is asked is reported as FileFormatError by the selection step, before anything is written (decision table, evaluated)", "an explicit format without the feature falls back to the file name: the file is silently written in another format")
+    from .c17 import check_selection_table
+
+    check_selection_table(ctx, "R10", which=("format",))
 
 
 def check_unimplemented_variants(ctx, rid):
